@@ -677,8 +677,11 @@ class Triangle(Polygon, Simplex):
         lambda2 = det(np.stack([a, p, c], axis=-2))
         lambda3 = det(np.stack([a, b, p], axis=-2))
 
-        # all barycentric coordinates have the sign of the orientation of the triangle or are zero
-        return ((lambda1 >= 0) & (lambda2 >= 0) & (lambda3 >= 0)) | ((lambda1 <= 0) & (lambda2 <= 0) & (lambda3 <= 0))
+        # all barycentric coordinates have the sign of the orientation of the triangle or are zero (up to rounding)
+        tol = EQ_TOL_ABS
+        inside_ccw = (lambda1 >= -tol) & (lambda2 >= -tol) & (lambda3 >= -tol)
+        inside_cw = (lambda1 <= tol) & (lambda2 <= tol) & (lambda3 <= tol)
+        return inside_ccw | inside_cw
 
 
 class Rectangle(Polygon):
